@@ -29,7 +29,9 @@ def gen_case(r: apigen.Rng):
         opts += ["python-gapic-templates=ads-templates", "old-naming"]
         mixins, legacy_iam = [], False
         opts = [o for o in opts if o != "add-iam-methods"]
-    return {"features": feats, "opts": opts, "mixins": sorted(mixins), "ads": ads}
+    # the async-REST experiment (service yaml, publishing settings); it only changes the surface when rest is requested
+    rest_async = (not ads) and "rest" in tr and r.maybe(0.3)
+    return {"features": feats, "opts": opts, "mixins": sorted(mixins), "ads": ads, "rest_async": rest_async}
 
 
 def build(case):
@@ -173,10 +175,14 @@ def one(case):
     ydir = None
     opts = list(case["opts"])
     try:
-        if case["mixins"]:
+        if case["mixins"] or case.get("rest_async"):
             ydir = tempfile.mkdtemp(prefix="gapicverif_yaml_", dir=genrun.SCRATCH)
             yp = os.path.join(ydir, "service.yaml")
-            open(yp, "w").write(service_yaml(case))
+            ytext = service_yaml(case)
+            if case.get("rest_async"):
+                ytext += ("publishing:\n  library_settings:\n  - version: %s\n    python_settings:\n      experimental_features:\n"
+                          "        rest_async_io_enabled: true\n" % PKG)
+            open(yp, "w").write(ytext)
             opts.append("service-yaml=" + yp)
         req = apigen.request([f], ",".join(opts))
         res, err = genrun.try_generate(req)
@@ -206,7 +212,11 @@ def judge(ctx, case, out):
     ctx.notes["emitted_tests_run"] = ctx.notes.get("emitted_tests_run", 0) + out["total"]
     if out["bad"] or out["rc"] != 0:
         names = sorted(set(norm_test(n) for n, _ in out["bad"]))
-        ctx.fail("emitted-tests-fail:" + (names[0] if names else "collection"),
+        key = "emitted-tests-fail:" + (names[0] if names else "collection")
+        if case.get("rest_async") and not any(o.startswith("transport=") and "grpc" in o for o in case["opts"]) \
+                and names and all("rest_asyncio" in n or "async" in n for n in names):
+            key = "emitted-tests-fail:async-rest-without-grpc"      # findings/C13.json (same root cause as the C01 finding)
+        ctx.fail(key,
                  f"{len(out['bad'])} of {out['total']} emitted tests fail, e.g. {out['bad'][:2]}", {**payload, "failing": names[:20]})
 
 
@@ -233,6 +243,8 @@ def t2_samples(ctx, r):
 
 ALL_BUT_PAGING_VARIANTS = [f for f in FEATURES if f not in ("paged_scalar", "paged_map", "paged_wrapper", "keyword_rpc")]
 CORPUS = [
+    {"features": ["custom_lro", "paged_wrapper", "server_stream", "scalars", "uuid4", "routing"], "opts": ["transport=grpc+rest"], "mixins": ["operations"], "ads": False, "rest_async": True},
+    {"features": ["scalars"], "opts": ["transport=rest"], "mixins": [], "ads": False, "rest_async": True},
     # every feature of the profile at once (so that no single-feature regression of the test templates can hide), per transport
     {"features": ALL_BUT_PAGING_VARIANTS + ["paged_wrapper"], "opts": ["transport=grpc+rest"], "mixins": ["iam", "locations", "operations"], "ads": False},
     {"features": ALL_BUT_PAGING_VARIANTS + ["paged_scalar", "keyword_rpc"], "opts": ["transport=rest", "rest-numeric-enums"], "mixins": [], "ads": False},
